@@ -122,3 +122,11 @@ package mbapp
 //@ func extractErrorCode
 //@   ensures n >= 0 ==> ret0 == 0 && ret1 == n
 //@   ensures n < 0 ==> ret0 != 0 && ret1 == 0
+
+// ---- ask completion: a response that does not fit the asker's buffer is an error -----------------
+
+//@ func (*ask).complete
+//@   noframe
+//@   requires a != nil && a.done != nil && (!a.once ==> !closed(a.done))
+//@   ensures [fits] !old(a.once) && a.err == nil ==> a.n == len(resp)
+//@   ensures [once] old(a.once) ==> a.n == old(a.n) && a.err == old(a.err) && a.errCode == old(a.errCode)
